@@ -204,6 +204,9 @@ fn opts() -> impl bincode::Options + Copy {
 pub struct Case {
     pub container: String,
     pub value: V,
+    /// judged by the generated Java classes (c10_java) instead of the Rust-side clauses
+    #[serde(default)]
+    pub java: bool,
 }
 
 type Checker = fn(&Registry, &Case) -> Result<(), (&'static str, String)>;
@@ -425,6 +428,9 @@ pub fn main(mode: Mode) {
     let table = checkers();
     let stats = Stats::new();
     let check = |c: &Case| -> Result<(), String> {
+        if c.java {
+            return crate::c10_java::run(&thread_registry(), 0, vkit::base_seed(), Some(c)).map(|_| ()).map_err(|f| format!("[{}] {}", f.sig, f.why));
+        }
         let Some(f) = table.get(c.container.as_str()) else { return Err(format!("no Rust type registered in the harness for container {}", c.container)) };
         let reg = thread_registry();
         let res = f(&reg, c).and_then(|_| bridge_outputs(&reg, c)).and_then(|_| bridge_accepts_output(&reg, c));
@@ -472,7 +478,7 @@ pub fn main(mode: Mode) {
             }
             for k in &known {
                 if k.sig == "httperror-serde-skip" {
-                    let c = Case { container: "HttpError".into(), value: V::Variant("Timeout".into(), Box::new(V::Unit)) };
+                    let c = Case { container: "HttpError".into(), value: V::Variant("Timeout".into(), Box::new(V::Unit)), java: false };
                     if check_typed::<crux_http::HttpError>(&reg, &c).is_err() {
                         vkit::print_known_finding(k);
                     }
@@ -487,6 +493,17 @@ pub fn main(mode: Mode) {
                     std::process::exit(1);
                 }
             }
+            // the generated code itself (Java: the one target language whose compiler is in the sandbox)
+            match crate::c10_java::run(&reg, tier.pick(150, 4_000), vkit::base_seed(), None) {
+                Ok(rep) => stats.set_extra("generated_java", serde_json::to_value(&rep).unwrap_or_default()),
+                Err(f) => {
+                    let why = format!("[{}] {}", f.sig, f.why);
+                    println!("why: {why}");
+                    let path = vkit::write_replay(prop, &f.case, &why);
+                    println!("VIOLATION property={prop} replay={}", path.display());
+                    std::process::exit(1);
+                }
+            }
             let names: Vec<String> = reg.keys().cloned().collect();
             stats.set_extra("containers", serde_json::json!(names));
             let strategy = move || {
@@ -495,7 +512,7 @@ pub fn main(mode: Mode) {
                     .iter()
                     .map(|n| {
                         let n2 = n.clone();
-                        wire::gen::container(&reg2, n, 0).prop_map(move |v| Case { container: n2.clone(), value: v }).boxed()
+                        wire::gen::container(&reg2, n, 0).prop_map(move |v| Case { container: n2.clone(), value: v, java: false }).boxed()
                     })
                     .collect();
                 proptest::strategy::Union::new(arms)
@@ -512,7 +529,8 @@ pub fn main(mode: Mode) {
                     rule: "for every container of the registry TypeGen builds for an app with all shipped capabilities (http, kv, time, platform, render) and an event/view-model zoo, schema-valid values are generated from the schema itself (all variants, empty and long sequences, arbitrary bytes and strings, extreme integers, nested options) and pushed through: schema encode -> core decode -> value comparison by names -> Rust encode -> schema decode -> re-encode; events are also sent through Bridge::process_event and the returned requests and view decoded under the schema, and capability outputs (HttpResult, KeyValueResult, TimeResponse, PlatformResponse) are offered to Bridge::handle_response as the answer to an outstanding request of the matching kind, after which the app must have received the value they denote; strings, byte buffers and u8 sequences occasionally exceed 64 KiB (rarely 1 MiB); non-trivial = value with >= 2 enum nodes and a non-empty sequence; distinct = distinct (container, value)",
                     assumptions: vec![
                         "the harness codec (wire::codec) implements the bincode configuration of the generated shell code: fixed-width little-endian integers, u64 lengths, u32 variant index, u8 option tag".into(),
-                        "the registry is taken from TypeGen's public state (the Tracer) after register_app".into(),
+                        "the registry is taken from TypeGen's public state (the Tracer) after register_app; the Java stage takes it from the state TypeGen::java leaves behind and requires the two to be equal".into(),
+                        "generated code is exercised for Java only (javac is in the sandbox; swiftc and tsc are not); serde-generate's Java runtime has no char: values containing one are skipped there (counted)".into(),
                     ],
                     started,
                     replayed,
